@@ -227,6 +227,9 @@ func ScanWAL(b []byte) WALScan {
 // ReadDiskImage builds the logical image from the raw files of a database
 // directory: the database file overlaid with the committed frames of the WAL.
 func ReadDiskImage(dbDir string) (*Image, error) {
+	if fi, err := os.Stat(filepath.Join(dbDir, "database")); err == nil && fi.Size() > 1<<30 {
+		return nil, fmt.Errorf("database file is %d bytes (a page was written far beyond the end)", fi.Size())
+	}
 	b, err := os.ReadFile(filepath.Join(dbDir, "database"))
 	if os.IsNotExist(err) || (err == nil && len(b) == 0) {
 		return nil, nil
